@@ -3,6 +3,9 @@ From Coq Require Import List ZArith Bool Arith Lia.
 From Circ Require Import Model.Feedback.
 Import ListNotations.
 
+Arguments set_value : simpl never.
+Arguments propagate : simpl never.
+
 (* ------------------------------------------------------------------ Value.setValue vs. pack *)
 
 Lemma accum_from_list : forall r l0, accum_from (PList l0) true r = PList (l0 ++ r).
@@ -425,16 +428,62 @@ Proof.
   - eapply ext_val; eauto.
 Qed.
 
-Lemma set_value_vop : forall e x s, e < next s -> is_none x = false ->
-  exists li, vop e li s (set_value e x s) /\ (li = [] \/ li = [LFD DVC e]) /\
-             val (set_value e x s) e = setv (val s e) x.
+(* ---- the parent links of Values: only a handler that returns a nested Value sets one *)
+
+Lemma vpar_fire_all : forall kids s, vpar (fire_all kids s) = vpar s.
+Proof. induction kids as [|sp r IH]; intros s; simpl; auto. now rewrite IH. Qed.
+Lemma vpar_fire_der : forall k e s, vpar (fire_der k e s) = vpar s.
+Proof. intros. unfold fire_der. now destruct (der_chans k (spec s e)). Qed.
+Lemma vpar_inform : forall f e s, vpar (inform f e s) = vpar s.
 Proof.
-  intros e x s He Hx. unfold set_value. rewrite Hx.
+  intros. unfold inform. destruct (vpromise (val s e) && negb f); auto.
+  destruct (ev_notify (spec s e)); auto using vpar_fire_der.
+Qed.
+Lemma vpar_raise_feedback : forall e s, vpar (raise_feedback e s) = vpar s.
+Proof.
+  intros. unfold raise_feedback. rewrite vpar_fire_der. destruct (ev_fail (spec s e)); auto using vpar_fire_der.
+Qed.
+Lemma vpar_event_done : forall e err s, vpar (event_done e err s) = vpar s.
+Proof.
+  intros. unfold event_done. destruct (Nat.eqb (waiting s e) 0); auto. cbv zeta.
+  match goal with |- context [if ?c then _ else _] => destruct c end; auto. now rewrite vpar_fire_der.
+Qed.
+Lemma vpar_log_all : forall xs s, vpar (log_all xs s) = vpar s.
+Proof. induction xs as [|x r IH]; intros s; simpl; auto. now rewrite IH. Qed.
+Lemma vpar_set_value_local : forall e x s, vpar (set_value_local e x s) = vpar s.
+Proof. intros. unfold set_value_local. destruct (is_none x); auto. now rewrite vpar_inform. Qed.
+
+Lemma propagate_none : forall f o x s, vpar s o = None -> propagate f o x s = s.
+Proof. intros f o x s H. destruct f; unfold propagate; auto. now rewrite H. Qed.
+
+(* without a parent link, setValue of a non-Value argument is the local update *)
+Lemma set_value_eq : forall e x s,
+  vpar s e = None -> is_ref x = false -> set_value e x s = set_value_local e x s.
+Proof.
+  intros e x s Hp Hx. unfold set_value.
+  destruct x; try discriminate; apply propagate_none; now rewrite vpar_set_value_local.
+Qed.
+
+Lemma set_value_local_vop : forall e x s, e < next s -> is_none x = false ->
+  exists li, vop e li s (set_value_local e x s) /\ (li = [] \/ li = [LFD DVC e]) /\
+             val (set_value_local e x s) e = setv (val s e) x.
+Proof.
+  intros e x s He Hx. unfold set_value_local. rewrite Hx.
   match goal with |- context [inform false e ?s1] => set (s1' := s1) end.
   destruct (inform_vop false e s1' He) as (li & Hv & Hli & Hval).
   exists li. split; [|split]; auto.
   - rewrite <- (app_nil_r li). eapply vop_trans; [exact He | apply vop_set_val | exact Hv].
   - rewrite Hval. unfold s1', setv. simpl. rewrite upd_same, Hx. reflexivity.
+Qed.
+
+Lemma set_value_vop : forall e x s, e < next s -> is_none x = false ->
+  vpar s e = None -> is_ref x = false ->
+  exists li, vop e li s (set_value e x s) /\ (li = [] \/ li = [LFD DVC e]) /\
+             val (set_value e x s) e = setv (val s e) x /\ vpar (set_value e x s) = vpar s.
+Proof.
+  intros e x s He Hx Hp Hr. rewrite (set_value_eq e x s Hp Hr).
+  destruct (set_value_local_vop e x s He Hx) as (li & a & b & c).
+  exists li. split; [exact a|]. split; [exact b|]. split; [exact c|]. apply vpar_set_value_local.
 Qed.
 
 Definition nonh (x : entry) : Prop := match x with LH _ _ | LG _ _ _ => False | _ => True end.
@@ -480,24 +529,28 @@ Ltac fa := repeat (apply Forall_app; split); auto.
 
 Lemma plain_unit : forall e i kids r err s,
   e < next s -> nth_error (ev_hs (spec s e)) i = Some (HP kids r) ->
+  vpar s e = None -> plain_hdl (HP kids r) = true ->
   exists l, vop e l s (fst (run_handler e i (HP kids r) err s)) /\ Forall nosucc l /\ In (LH e i) l /\
     (VC s e -> VC (fst (run_handler e i (HP kids r) err s)) e) /\
     ((err = true -> verrors (val s e) = true) ->
      snd (run_handler e i (HP kids r) err s) = true ->
      verrors (val (fst (run_handler e i (HP kids r) err s)) e) = true) /\
-    (verrors (val s e) = true -> verrors (val (fst (run_handler e i (HP kids r) err s)) e) = true).
+    (verrors (val s e) = true -> verrors (val (fst (run_handler e i (HP kids r) err s)) e) = true) /\
+    vpar (fst (run_handler e i (HP kids r) err s)) = vpar s.
 Proof.
-  intros e i kids r err s He Hnth.
+  intros e i kids r err s He Hnth Hnp Hpl.
   destruct (enter_vop e (LH e i) kids s He eq_refl) as (lk & Hv1 & Hlk & Hval1 & Hn1).
   set (s2 := fire_all kids (add_log (LH e i) s)) in *.
   assert (He2 : e < next s2) by lia.
-  assert (Hc : contrib (spec s) e (LH e i) = match r with RRet v => nonnone v | RRaise => [PErr] end).
+  assert (Hc : contrib (spec s) e (LH e i) = match r with RRet v => nonnone v | RRaise => [PErr] | RNest _ => [] end).
   { simpl. rewrite Nat.eqb_refl, Hnth. now destruct r. }
-  assert (Hr : raises (spec s) e (LH e i) = match r with RRet _ => false | RRaise => true end).
+  assert (Hr : raises (spec s) e (LH e i) = match r with RRet _ => false | RRaise => true | RNest _ => false end).
   { simpl. rewrite Nat.eqb_refl, Hnth. now destruct r. }
   pose proof (LF_nonh _ _ Hlk) as Hlk1. pose proof (LF_nosucc _ _ Hlk) as Hlk2.
   pose proof (count_der_LF DExc e _ _ Hlk) as Hlk3. pose proof (count_der_LF DFail e _ _ Hlk) as Hlk4.
-  destruct r as [v|]; simpl run_handler.
+  assert (Hp2 : vpar s2 = vpar s) by (unfold s2; now rewrite vpar_fire_all).
+  destruct r as [v| |sp]; simpl run_handler;
+    [| | simpl in Hpl; rewrite andb_false_r in Hpl; discriminate].
   - destruct (is_none v) eqn:Hnone; simpl fst; simpl snd; fold s2.
     + (* return None *)
       exists (lk ++ [LH e i]). split; [exact Hv1|]. split; [fa; repeat constructor|].
@@ -512,9 +565,11 @@ Proof.
         -- rewrite b, Hr, count_der_app, Hlk3. reflexivity.
         -- rewrite b, Hr, count_der_app, Hlk4. simpl. now destruct (ev_fail (spec s e)).
       * intros Herr E. rewrite Hval1. auto.
-      * rewrite Hval1. auto.
+      * split; [rewrite Hval1; auto | exact Hp2].
     + (* return a value *)
-      destruct (set_value_vop e v s2 He2 Hnone) as (li & Hv2 & Hli & Hval2).
+      assert (Hrv : is_ref v = false).
+      { simpl in Hpl. apply andb_prop in Hpl. destruct Hpl as (_ & Hpl). now apply negb_true_iff in Hpl. }
+      destruct (set_value_vop e v s2 He2 Hnone ltac:(rewrite Hp2; exact Hnp) Hrv) as (li & Hv2 & Hli & Hval2 & Hp3).
       destruct (li_facts e li Hli) as (q1 & q2 & q3 & q4 & q5 & q6).
       exists (li ++ lk ++ [LH e i]). split; [eapply vop_trans; eauto|].
       split; [fa; repeat constructor|].
@@ -532,7 +587,7 @@ Proof.
         -- rewrite b, Hr, !count_der_app, Hlk3, q4. reflexivity.
         -- rewrite b, Hr, !count_der_app, Hlk4, q5. simpl. now destruct (ev_fail (spec s e)).
       * intros Herr E. rewrite Hval2, Hval1. simpl. auto.
-      * rewrite Hval2, Hval1. simpl. auto.
+      * split; [rewrite Hval2, Hval1; simpl; auto | now rewrite Hp3].
   - (* raise *)
     simpl fst; simpl snd; fold s2.
     set (s3 := set_errors e s2).
@@ -548,7 +603,9 @@ Proof.
     assert (Hv4 : vop e (fb_log (ev_fail (spec s e)) e) s3 s4) by (apply vop_ext; auto).
     assert (Hval4 : val s4 e = seterr (val s e)) by (rewrite (ext_val _ _ _ e Hx4 He3); auto).
     assert (He4 : e < next s4) by (pose proof (x_next _ _ _ Hx4); lia).
-    destruct (set_value_vop e PErr s4 He4 eq_refl) as (li & Hv5 & Hli & Hval5).
+    assert (Hp4 : vpar s4 = vpar s).
+    { unfold s4. rewrite vpar_raise_feedback. unfold s3, set_errors. simpl. exact Hp2. }
+    destruct (set_value_vop e PErr s4 He4 eq_refl ltac:(rewrite Hp4; exact Hnp) eq_refl) as (li & Hv5 & Hli & Hval5 & Hp5).
     destruct (li_facts e li Hli) as (q1 & q2 & q3 & q4 & q5 & q6).
     assert (Hvt : vop e (((li ++ fb_log (ev_fail (spec s e)) e) ++ lk) ++ [LH e i]) s (set_value e PErr s4)).
     { rewrite <- !app_assoc.
@@ -569,7 +626,7 @@ Proof.
       * rewrite b, Hr, !count_der_app, Hlk3, q4, b4. reflexivity.
       * rewrite b, Hr, !count_der_app, Hlk4, q5, b5. simpl. destruct (ev_fail (spec s e)); reflexivity.
     + intros _ _. rewrite Hval5, Hval4. reflexivity.
-    + intros _. rewrite Hval5, Hval4. reflexivity.
+    + split; [intros _; rewrite Hval5, Hval4; reflexivity | now rewrite Hp5].
 Qed.
 
 (* ------------------------------------------------------------------ summaries of handler activity on e *)
@@ -636,32 +693,38 @@ Qed.
 
 Lemma run_handlers_sum : forall e hs i err s pre,
   e < next s -> ev_hs (spec s e) = pre ++ hs -> length pre = i ->
+  vpar s e = None -> forallb plain_hdl hs = true ->
   exists l tnew, dsum e l tnew s (fst (run_handlers e i hs err s)) /\
     ((err = true -> verrors (val s e) = true) ->
-     snd (run_handlers e i hs err s) = true -> verrors (val (fst (run_handlers e i hs err s)) e) = true).
+     snd (run_handlers e i hs err s) = true -> verrors (val (fst (run_handlers e i hs err s)) e) = true) /\
+    vpar (fst (run_handlers e i hs err s)) = vpar s.
 Proof.
-  intros e hs. induction hs as [|h r IH]; intros i err s pre He Hpre Hlen.
+  intros e hs. induction hs as [|h r IH]; intros i err s pre He Hpre Hlen Hnp Hpl.
   - exists [], []. split; [apply dsum_refl | simpl; auto].
   - assert (Hnth : nth_error (ev_hs (spec s e)) i = Some h).
     { rewrite Hpre, nth_error_app2 by lia. now rewrite <- Hlen, Nat.sub_diag. }
+    simpl in Hpl. apply andb_prop in Hpl. destruct Hpl as (Hph & Hpr).
     simpl run_handlers.
     destruct (run_handler e i h err s) as [s1 err1] eqn:Hrun.
     assert (Hunit : exists l1 t1, dsum e l1 t1 s s1 /\
-              ((err = true -> verrors (val s e) = true) -> err1 = true -> verrors (val s1 e) = true)).
+              ((err = true -> verrors (val s e) = true) -> err1 = true -> verrors (val s1 e) = true) /\
+              vpar s1 = vpar s).
     { destruct h as [kids rr | ys lk gr].
-      - destruct (plain_unit e i kids rr err s He Hnth) as (l & Hv & Hn & _ & Hvc & Herr & Hm).
-        rewrite Hrun in *. simpl in *. exists l, []. split; auto. now apply dsum_vop.
-      - simpl in Hrun. inversion Hrun; subst. eexists _, _. split; [apply add_task_dsum|].
+      - destruct (plain_unit e i kids rr err s He Hnth Hnp Hph) as (l & Hv & Hn & _ & Hvc & Herr & Hm & Hp).
+        rewrite Hrun in *. simpl in *. exists l, []. split; [|split]; auto. now apply dsum_vop.
+      - simpl in Hrun. inversion Hrun; subst. eexists _, _. split; [apply add_task_dsum|]. split; [|reflexivity].
         intros Herr E. specialize (Herr E). unfold add_task, set_promise. simpl. now rewrite !upd_same. }
-    destruct Hunit as (l1 & t1 & Hd1 & Herr1).
+    destruct Hunit as (l1 & t1 & Hd1 & Herr1 & Hp1).
     assert (He1 : e < next s1) by (pose proof (f_next _ _ _ _ (d_fr _ _ _ _ _ Hd1)); lia).
     assert (Hsp1 : spec s1 e = spec s e) by (apply (fr_spec _ _ _ _ e (d_fr _ _ _ _ _ Hd1) He)).
-    destruct (IH (S i) err1 s1 (pre ++ [h]) He1) as (l2 & t2 & Hd2 & Herr2).
+    destruct (IH (S i) err1 s1 (pre ++ [h]) He1) as (l2 & t2 & Hd2 & Herr2 & Hp2); auto.
     { rewrite Hsp1, Hpre, <- app_assoc. reflexivity. }
     { rewrite app_length. simpl. lia. }
-    exists (l2 ++ l1), (t1 ++ t2). split.
+    { now rewrite Hp1. }
+    exists (l2 ++ l1), (t1 ++ t2). split; [|split].
     + eapply dsum_trans; eauto.
     + intros Herr E. apply Herr2; auto.
+    + now rewrite Hp2.
 Qed.
 
 (* ------------------------------------------------------------------ _eventDone, observers *)
@@ -939,15 +1002,25 @@ Qed.
 Lemma succ_log_silent : forall e b, Forall silent (succ_log e b).
 Proof. intros e []; repeat constructor. Qed.
 
+Lemma plain_ev_hs : forall sp, plain_ev sp = forallb plain_hdl (ev_hs sp).
+Proof. intros []. reflexivity. Qed.
+
+Lemma forallb_nth : forall A (f : A -> bool) l i x, forallb f l = true -> nth_error l i = Some x -> f x = true.
+Proof.
+  intros A f l i x H Hn. rewrite forallb_forall in H. apply H. eapply nth_error_In; eauto.
+Qed.
+
 Lemma dispatch_user_ssum : forall e s,
   e < next s -> kind s e = KUser -> waiting s e = ctasks e (tasks s) ->
+  vpar s e = None -> plain_ev (spec s e) = true ->
   ssum e s (dispatch e s).
 Proof.
-  intros e s He Hk Hw. unfold dispatch. rewrite Hk.
+  intros e s He Hk Hw Hnp Hpl. unfold dispatch. rewrite Hk.
   set (s0 := set_phase e PActive s).
   assert (He0 : e < next s0) by (simpl; lia).
-  destruct (run_handlers_sum e (ev_hs (spec s0 e)) 0 false s0 [] He0 eq_refl eq_refl)
-    as (l1 & t1 & Hd1 & Herr1).
+  rewrite plain_ev_hs in Hpl.
+  destruct (run_handlers_sum e (ev_hs (spec s0 e)) 0 false s0 [] He0 eq_refl eq_refl Hnp Hpl)
+    as (l1 & t1 & Hd1 & Herr1 & _).
   destruct (run_handlers e 0 (ev_hs (spec s0 e)) false s0) as [s1 err] eqn:Hrun. simpl fst in *. simpl snd in *.
   pose proof (d_fr _ _ _ _ _ Hd1) as Hf1.
   assert (He1 : e < next s1) by (pose proof (f_next _ _ _ _ Hf1); lia).
@@ -997,11 +1070,13 @@ Qed.
 (* a generator segment that yields: log entry, fired children, optional value *)
 Lemma yield_unit : forall e i k kids y s,
   e < next s -> contrib (spec s) e (LG e i k) = nonnone y -> raises (spec s) e (LG e i k) = false ->
+  vpar s e = None -> is_ref y = false ->
   let s2 := fire_all kids (add_log (LG e i k) s) in
   let s' := if is_none y then s2 else set_value e y s2 in
-  exists l, vop e l s s' /\ Forall nosucc l /\ In (LG e i k) l /\ (VC s e -> VC s' e).
+  exists l, vop e l s s' /\ Forall nosucc l /\ In (LG e i k) l /\ (VC s e -> VC s' e) /\ vpar s' = vpar s.
 Proof.
-  intros e i k kids y s He Hc Hr s2 s'.
+  intros e i k kids y s He Hc Hr Hnp Hry s2 s'.
+  assert (Hp2 : vpar s2 = vpar s) by (unfold s2; now rewrite vpar_fire_all).
   destruct (enter_vop e (LG e i k) kids s He eq_refl) as (lk & Hv1 & Hlk & Hval1 & Hn1).
   fold s2 in Hv1, Hval1, Hn1.
   assert (He2 : e < next s2) by lia.
@@ -1010,6 +1085,7 @@ Proof.
   unfold s'. destruct (is_none y) eqn:Hnone.
   - exists (lk ++ [LG e i k]). split; [exact Hv1|]. split; [fa; repeat constructor|].
     split; [apply in_or_app; right; left; reflexivity|].
+    split; [|exact Hp2].
     intros Hvc. destruct (delta_one (spec s) e lk (LG e i k) Hlk1) as (a & b).
     eapply VC_step with (l := lk ++ [LG e i k]); eauto.
     + apply (fr_spec _ _ _ _ e (v_fr _ _ _ _ Hv1) He).
@@ -1019,11 +1095,12 @@ Proof.
     + rewrite b, Hr, Hval1. simpl. now rewrite orb_false_r.
     + rewrite b, Hr, count_der_app, Hlk3. reflexivity.
     + rewrite b, Hr, count_der_app, Hlk4. simpl. now destruct (ev_fail (spec s e)).
-  - destruct (set_value_vop e y s2 He2 Hnone) as (li & Hv2 & Hli & Hval2).
+  - destruct (set_value_vop e y s2 He2 Hnone ltac:(rewrite Hp2; exact Hnp) Hry) as (li & Hv2 & Hli & Hval2 & Hp3).
     destruct (li_facts e li Hli) as (q1 & q2 & q3 & q4 & q5 & q6).
     exists (li ++ lk ++ [LG e i k]). split; [eapply vop_trans; eauto|].
     split; [fa; repeat constructor|].
     split; [apply in_or_app; right; apply in_or_app; right; left; reflexivity|].
+    split; [|now rewrite Hp3].
     intros Hvc.
     destruct (delta_one (spec s) e (li ++ lk) (LG e i k) ltac:(fa)) as (a & b).
     assert (Hvt : vop e ((li ++ lk) ++ [LG e i k]) s (set_value e y s2))
@@ -1097,9 +1174,10 @@ Qed.
 Lemma step_task_ssum : forall p t s,
   nth_error (tasks s) p = Some t -> tev t < next s -> phase s (tev t) = PActive ->
   waiting s (tev t) = ctasks (tev t) (tasks s) ->
+  vpar s (tev t) = None -> plain_ev (spec s (tev t)) = true ->
   step_task p s = s \/ ssum (tev t) s (step_task p s).
 Proof.
-  intros p t s Hn He Hph Hw. unfold step_task. rewrite Hn.
+  intros p t s Hn He Hph Hw Hnp Hpl. unfold step_task. rewrite Hn. rewrite plain_ev_hs in Hpl.
   set (e := tev t) in *.
   assert (Hpos : 0 < waiting s e).
   { rewrite Hw. eapply ctasks_pos; [eapply nth_error_In; eauto | reflexivity]. }
@@ -1116,7 +1194,11 @@ Proof.
       by (simpl; now rewrite Nat.eqb_refl, Hh, Hy).
     assert (Hr : raises (spec s) e (LG e (thd t) (tk t)) = false)
       by (simpl; now rewrite Nat.eqb_refl, Hh, Hy).
-    destruct (yield_unit e (thd t) (tk t) kids y s He Hc Hr) as (l & Hv & Hns & _ & Hvc).
+    assert (Hry : is_ref y = false).
+    { pose proof (forallb_nth _ _ _ _ _ Hpl Hh) as H1. simpl in H1. apply andb_prop in H1. destruct H1 as (H1 & _).
+      pose proof (forallb_nth _ _ _ _ _ H1 Hy) as H2. simpl in H2. apply andb_prop in H2.
+      destruct H2 as (_ & H2). now apply negb_true_iff in H2. }
+    destruct (yield_unit e (thd t) (tk t) kids y s He Hc Hr Hnp Hry) as (l & Hv & Hns & _ & Hvc & _).
     cbv zeta in Hv, Hvc.
     set (s3 := if is_none y then fire_all kids (add_log (LG e (thd t) (tk t)) s)
                else set_value e y (fire_all kids (add_log (LG e (thd t) (tk t)) s))) in *.
@@ -1146,7 +1228,9 @@ Proof.
       unfold task_raise.
       set (s3 := set_tasks (remove_nth p (tasks s2)) s2).
       assert (He3 : e < next s3) by (simpl; lia).
-      destruct (set_value_vop e PErr s3 He3 eq_refl) as (li1 & Hv4 & Hli1 & Hval4).
+      assert (Hnp3 : vpar s3 e = None).
+      { change (vpar s3) with (vpar s2). unfold s2. now rewrite vpar_fire_all. }
+      destruct (set_value_vop e PErr s3 He3 eq_refl Hnp3 eq_refl) as (li1 & Hv4 & Hli1 & Hval4 & _).
       set (s4 := set_value e PErr s3) in *.
       pose proof (v_fr _ _ _ _ Hv4) as F4.
       assert (He4 : e < next s4) by (pose proof (f_next _ _ _ _ F4); lia).
@@ -1234,7 +1318,7 @@ Proof.
         by (simpl; now rewrite Nat.eqb_refl, Hh, Hy).
       assert (Hr : raises (spec s) e (LG e (thd t) (tk t)) = false)
         by (simpl; now rewrite Nat.eqb_refl, Hh, Hy).
-      destruct (yield_unit e (thd t) (tk t) lk PNone s He Hc Hr) as (l & Hv & Hns & _ & Hvc).
+      destruct (yield_unit e (thd t) (tk t) lk PNone s He Hc Hr Hnp eq_refl) as (l & Hv & Hns & _ & Hvc & _).
       cbv zeta in Hv, Hvc. simpl is_none in Hv, Hvc. cbv iota in Hv, Hvc.
       set (s2 := fire_all lk (add_log (LG e (thd t) (tk t)) s)) in *.
       pose proof (v_fr _ _ _ _ Hv) as F1.
@@ -1318,9 +1402,122 @@ Proof.
     rewrite Hlog. apply in_or_app. right. left. reflexivity.
 Qed.
 
-Lemma inv_step : forall lb s, Inv s -> Inv (step lb s).
+(* ------------------------------------------------------------------ programs of the original grammar stay in it *)
+
+(* no Value has a parent link and every event's script is plain (no nested-Value returns) *)
+Definition OKs (s : st) : Prop := (forall d, vpar s d = None) /\ (forall d, plain_ev (spec s d) = true).
+
+Lemma oks_alloc : forall k sp s, OKs s -> plain_ev sp = true -> OKs (alloc k sp s).
 Proof.
-  intros lb s HI. pose proof HI as [q1 q2 q3 t w a lbd vc sc sl]. destruct lb as [|p]; simpl.
+  intros k sp s (H1 & H2) Hp. split; simpl; auto.
+  intros d. unfold upd. destruct (Nat.eqb d (next s)); auto.
+Qed.
+Lemma oks_fire_all : forall kids s, OKs s -> forallb plain_ev kids = true -> OKs (fire_all kids s).
+Proof.
+  induction kids as [|sp r IH]; intros s H Hp; simpl; auto.
+  simpl in Hp. apply andb_prop in Hp. destruct Hp as (Hp1 & Hp2).
+  apply IH; auto. unfold fire_user. apply oks_alloc; auto.
+Qed.
+Lemma oks_fire_der : forall k e s, OKs s -> OKs (fire_der k e s).
+Proof. intros. unfold fire_der. destruct (der_chans k (spec s e)). apply oks_alloc; auto. Qed.
+Lemma oks_inform : forall f e s, OKs s -> OKs (inform f e s).
+Proof.
+  intros. unfold inform. destruct (vpromise (val s e) && negb f); auto.
+  destruct (ev_notify (spec s e)); auto using oks_fire_der.
+Qed.
+Lemma oks_raise_feedback : forall e s, OKs s -> OKs (raise_feedback e s).
+Proof.
+  intros. unfold raise_feedback. apply oks_fire_der. destruct (ev_fail (spec s e)); auto using oks_fire_der.
+Qed.
+Lemma oks_event_done : forall e err s, OKs s -> OKs (event_done e err s).
+Proof.
+  intros. unfold event_done. destruct (Nat.eqb (waiting s e) 0); auto. cbv zeta.
+  match goal with |- context [if ?c then _ else _] => destruct c end; auto.
+  apply oks_fire_der. exact H.
+Qed.
+Lemma oks_log_all : forall xs s, OKs s -> OKs (log_all xs s).
+Proof. induction xs as [|x r IH]; intros s H; simpl; auto. Qed.
+Lemma oks_set_value : forall e x s, OKs s -> is_ref x = false -> OKs (set_value e x s).
+Proof.
+  intros e x s H Hx. rewrite set_value_eq; auto; [|apply H]. unfold set_value_local.
+  destruct (is_none x); [exact H|]. apply oks_inform. exact H.
+Qed.
+
+Lemma oks_run_handler : forall e i h err s,
+  OKs s -> plain_hdl h = true -> OKs (fst (run_handler e i h err s)).
+Proof.
+  intros e i h err s H Hp. destruct h as [kids r | ys lk gr]; simpl.
+  - simpl in Hp. apply andb_prop in Hp. destruct Hp as (Hk & Hr).
+    assert (H1 : OKs (fire_all kids (add_log (LH e i) s))) by (apply oks_fire_all; auto).
+    destruct r as [v| |sp]; simpl; try discriminate.
+    + destruct (is_none v); auto. apply oks_set_value; auto. now apply negb_true_iff in Hr.
+    + apply oks_set_value; auto. apply oks_raise_feedback. exact H1.
+  - exact H.
+Qed.
+
+Lemma oks_run_handlers : forall e hs i err s,
+  OKs s -> forallb plain_hdl hs = true -> OKs (fst (run_handlers e i hs err s)).
+Proof.
+  intros e hs. induction hs as [|h r IH]; intros i err s H Hp; simpl; auto.
+  simpl in Hp. apply andb_prop in Hp. destruct Hp as (Hp1 & Hp2).
+  pose proof (oks_run_handler e i h err s H Hp1) as H1.
+  destruct (run_handler e i h err s) as [s1 err1]. simpl in *. apply IH; auto.
+Qed.
+
+Lemma oks_dispatch : forall e s, OKs s -> OKs (dispatch e s).
+Proof.
+  intros e s H. unfold dispatch. destruct (kind s e).
+  - set (s0 := set_phase e PActive s).
+    assert (H0 : OKs s0) by exact H.
+    assert (Hp : forallb plain_hdl (ev_hs (spec s0 e)) = true) by (rewrite <- plain_ev_hs; apply H0).
+    pose proof (oks_run_handlers e _ 0 false s0 H0 Hp) as H1.
+    destruct (run_handlers e 0 (ev_hs (spec s0 e)) false s0) as [s1 err]. simpl in H1.
+    apply oks_event_done. apply oks_log_all. exact H1.
+  - assert (H1 : OKs (log_all (map (LDD k of) (observers toApp toOther)) s)) by (apply oks_log_all; exact H).
+    exact H1.
+Qed.
+
+Lemma oks_task_stop : forall p e s, OKs s -> OKs (task_stop p e s).
+Proof.
+  intros p e s H. unfold task_stop. cbv zeta.
+  match goal with |- context [if ?c then _ else _] => destruct c end; [|exact H].
+  apply oks_event_done. apply oks_inform. exact H.
+Qed.
+Lemma oks_task_raise : forall p e s, OKs s -> OKs (task_raise p e s).
+Proof.
+  intros p e s H. unfold task_raise. cbv zeta. apply oks_event_done.
+  assert (H1 : OKs (set_value e PErr (set_tasks (remove_nth p (tasks s)) s))) by (apply oks_set_value; auto; exact H).
+  assert (H2 : OKs (inform true e (set_errors e (set_value e PErr (set_tasks (remove_nth p (tasks s)) s)))))
+    by (apply oks_inform; exact H1).
+  exact (oks_raise_feedback e _ H2).
+Qed.
+
+Lemma oks_step : forall lb s, OKs s -> OKs (step lb s).
+Proof.
+  intros lb s H. destruct lb as [|p]; simpl.
+  - destruct (queue s) as [|e q]; auto. apply oks_dispatch. exact H.
+  - unfold step_task. destruct (nth_error (tasks s) p) as [t|]; auto.
+    destruct (nth_error (ev_hs (spec s (tev t))) (thd t)) as [[kids r | ys lk gr]|] eqn:Hh; auto.
+    assert (Hp : plain_hdl (HG ys lk gr) = true).
+    { eapply forallb_nth; [|exact Hh]. rewrite <- plain_ev_hs. apply H. }
+    simpl in Hp. apply andb_prop in Hp. destruct Hp as (Hys & Hlk).
+    destruct (nth_error ys (tk t)) as [[kids y]|] eqn:Hy.
+    + pose proof (forallb_nth _ _ _ _ _ Hys Hy) as Hs. simpl in Hs. apply andb_prop in Hs. destruct Hs as (Hk & Hr).
+      assert (H1 : OKs (fire_all kids (add_log (LG (tev t) (thd t) (tk t)) s))) by (apply oks_fire_all; auto).
+      destruct (is_none y); [exact H1|].
+      assert (H2 : OKs (set_value (tev t) y (fire_all kids (add_log (LG (tev t) (thd t) (tk t)) s))))
+        by (apply oks_set_value; auto; now apply negb_true_iff in Hr).
+      exact H2.
+    + assert (H1 : OKs (fire_all lk (add_log (LG (tev t) (thd t) (tk t)) s))) by (apply oks_fire_all; auto).
+      destruct gr; [apply oks_task_raise | apply oks_task_stop]; exact H1.
+Qed.
+
+Lemma oks_start : forall roots, forallb plain_ev roots = true -> OKs (start roots).
+Proof. intros roots H. unfold start. apply oks_fire_all; auto. split; reflexivity. Qed.
+
+Lemma inv_step : forall lb s, OKs s -> Inv s -> Inv (step lb s).
+Proof.
+  intros lb s (Hnp & Hsp) HI. pose proof HI as [q1 q2 q3 t w a lbd vc sc sl]. destruct lb as [|p]; simpl.
   - destruct (queue s) as [|e q] eqn:Hq; auto.
     assert (He : e < next s /\ phase s e = PQueued) by (apply q1; simpl; auto).
     destruct He as (He & Hpe). inversion q2; subst.
@@ -1334,47 +1531,49 @@ Proof.
     assert (Hz : ctasks e (tasks s) = 0).
     { apply ctasks_zero. intros t0 Hin Heq. destruct (t t0 Hin) as (_ & Hp). congruence. }
     destruct (kind s e) eqn:Hk.
-    + apply dispatch_user_ssum; auto. simpl. auto.
+    + apply dispatch_user_ssum; auto; simpl; auto.
     + eapply dispatch_der_ssum; simpl; eauto. rewrite (w e He). exact Hz.
   - destruct (nth_error (tasks s) p) as [t0|] eqn:Hn.
     2:{ unfold step_task. now rewrite Hn. }
     destruct (t t0 (nth_error_In _ _ Hn)) as (He & Hp).
-    destruct (step_task_ssum p t0 s Hn He Hp (w _ He)) as [-> | Hs]; auto.
+    destruct (step_task_ssum p t0 s Hn He Hp (w _ He) (Hnp _) (Hsp _)) as [-> | Hs]; auto.
     apply (step_inv (tev t0) s); auto.
     + split; auto. intros d Hd _ Hpd. apply q3; auto. discriminate.
     + intros Hin. destruct (q1 _ Hin). congruence.
     + congruence.
 Qed.
 
-Lemma inv_exec : forall ls s, Inv s -> Inv (exec ls s).
-Proof. induction ls as [|lb ls IH]; intros s H; simpl; auto. apply IH. now apply inv_step. Qed.
+Lemma inv_exec : forall ls s, OKs s -> Inv s -> OKs (exec ls s) /\ Inv (exec ls s).
+Proof.
+  induction ls as [|lb ls IH]; intros s H0 H; simpl; auto. apply IH; [now apply oks_step | now apply inv_step].
+Qed.
 
-Theorem reachable_inv : forall s, reachable s -> Inv s.
-Proof. intros s (roots & ls & ->). apply inv_exec, inv_start. Qed.
+Theorem reachable_inv : forall s, reachable_plain s -> Inv s.
+Proof. intros s (roots & ls & Hp & ->). apply inv_exec; [now apply oks_start | apply inv_start]. Qed.
 
 (* ------------------------------------------------------------------ the property theorems *)
 
 (* the Value of every event always holds what Value.setValue makes of the results produced so far
    (in production order), its errors flag says whether a handler has raised *)
-Theorem value_tracks : forall s e, reachable s -> e < next s ->
+Theorem value_tracks : forall s e, reachable_plain s -> e < next s ->
   vv (val s e) = accum (produced (spec s) e (log s)) /\
   vresult (val s e) = nonempty (produced (spec s) e (log s)) /\
   verrors (val s e) = (0 <? nraised (spec s) e (log s)).
 Proof. intros s e Hr He. destruct (i_vc _ _ (reachable_inv s Hr) e He). auto. Qed.
 
-Theorem value_packed : forall s e, reachable s -> e < next s ->
+Theorem value_packed : forall s e, reachable_plain s -> e < next s ->
   (match produced (spec s) e (log s) with x :: _ :: _ => is_list x = false | _ => True end) ->
   vv (val s e) = pack (produced (spec s) e (log s)).
 Proof. intros s e Hr He H. destruct (value_tracks s e Hr He) as (-> & _). now apply accum_pack. Qed.
 
 (* one exception event per raise; one <name>_failure per raise iff failure feedback was requested *)
-Theorem feedback_counts : forall s e, reachable s -> e < next s ->
+Theorem feedback_counts : forall s e, reachable_plain s -> e < next s ->
   count_der DExc e (log s) = nraised (spec s) e (log s) /\
   count_der DFail e (log s) = (if ev_fail (spec s e) then nraised (spec s) e (log s) else 0).
 Proof. intros s e Hr He. destruct (i_vc _ _ (reachable_inv s Hr) e He). auto. Qed.
 
 (* <name>_success: exactly once iff the event has finished, asked for it and no handler raised *)
-Theorem success_count : forall s e, reachable s -> e < next s -> kind s e = KUser ->
+Theorem success_count : forall s e, reachable_plain s -> e < next s -> kind s e = KUser ->
   count_der DSucc e (log s) =
   (if is_fin (phase s e) && Nat.eqb (nraised (spec s) e (log s)) 0 && ev_succ (spec s e) then 1 else 0).
 Proof.
@@ -1385,13 +1584,13 @@ Proof.
 Qed.
 
 (* ... and no handler activity of the event follows it *)
-Theorem success_last : forall s e l1 l2, reachable s -> e < next s -> kind s e = KUser ->
+Theorem success_last : forall s e l1 l2, reachable_plain s -> e < next s -> kind s e = KUser ->
   log s = l1 ++ LFD DSucc e :: l2 -> forall x, In x l1 -> ~ hentry x e.
 Proof. intros s e l1 l2 Hr He Hk. apply (i_sl _ _ (reachable_inv s Hr)); auto. Qed.
 
 (* nothing is lost or stuck: once queue and task set are empty every event that was ever fired
    (also by handlers that raised, also the feedback events) has been dispatched and has finished *)
-Theorem progress : forall s, reachable s -> quiet s = true ->
+Theorem progress : forall s, reachable_plain s -> quiet s = true ->
   forall d, d < next s -> phase s d = PFin /\ waiting s d = 0.
 Proof.
   intros s Hr Hq d Hd. pose proof (reachable_inv s Hr) as HI.
@@ -1406,55 +1605,60 @@ Qed.
 
 Lemma run_handlers_all : forall e hs i err s pre,
   e < next s -> ev_hs (spec s e) = pre ++ hs -> length pre = i ->
+  vpar s e = None -> forallb plain_hdl hs = true ->
   forall j h, nth_error hs j = Some h ->
   match h with
   | HP _ _ => In (LH e (i + j)) (log (fst (run_handlers e i hs err s)))
   | HG _ _ _ => In {| tev := e; thd := i + j; tk := 0 |} (tasks (fst (run_handlers e i hs err s)))
   end.
 Proof.
-  intros e hs. induction hs as [|h0 r IH]; intros i err s pre He Hpre Hlen j h Hj.
+  intros e hs. induction hs as [|h0 r IH]; intros i err s pre He Hpre Hlen Hnp Hpl j h Hj.
   - destruct j; discriminate.
   - assert (Hnth : nth_error (ev_hs (spec s e)) i = Some h0).
     { rewrite Hpre, nth_error_app2 by lia. now rewrite <- Hlen, Nat.sub_diag. }
+    simpl in Hpl. apply andb_prop in Hpl. destruct Hpl as (Hph & Hpr).
     simpl run_handlers. destruct (run_handler e i h0 err s) as [s1 err1] eqn:Hrun.
     assert (Hu : exists l1 t1, dsum e l1 t1 s s1 /\
-              match h0 with HP _ _ => In (LH e i) l1 | HG _ _ _ => In {| tev := e; thd := i; tk := 0 |} t1 end).
+              match h0 with HP _ _ => In (LH e i) l1 | HG _ _ _ => In {| tev := e; thd := i; tk := 0 |} t1 end /\
+              vpar s1 = vpar s).
     { destruct h0 as [kids rr | ys lk gr].
-      - destruct (plain_unit e i kids rr err s He Hnth) as (l & Hv & Hn & Hin & Hvc & _ & Hm).
-        rewrite Hrun in *. simpl in *. exists l, []. split; auto. now apply dsum_vop.
+      - destruct (plain_unit e i kids rr err s He Hnth Hnp Hph) as (l & Hv & Hn & Hin & Hvc & _ & Hm & Hp).
+        rewrite Hrun in *. simpl in *. exists l, []. split; [|split]; auto. now apply dsum_vop.
       - simpl in Hrun. inversion Hrun; subst. eexists _, _. split; [apply add_task_dsum|]. simpl; auto. }
-    destruct Hu as (l1 & t1 & Hd1 & Hin1).
+    destruct Hu as (l1 & t1 & Hd1 & Hin1 & Hp1).
+    assert (Hnp1 : vpar s1 e = None) by (now rewrite Hp1).
     assert (He1 : e < next s1) by (pose proof (f_next _ _ _ _ (d_fr _ _ _ _ _ Hd1)); lia).
     assert (Hsp1 : spec s1 e = spec s e) by (apply (fr_spec _ _ _ _ e (d_fr _ _ _ _ _ Hd1) He)).
     assert (Hpre1 : ev_hs (spec s1 e) = (pre ++ [h0]) ++ r) by (rewrite Hsp1, Hpre, <- app_assoc; reflexivity).
     assert (Hlen1 : length (pre ++ [h0]) = S i) by (rewrite app_length; simpl; lia).
     destruct j as [|j].
     + simpl in Hj. inversion Hj; subst h. rewrite Nat.add_0_r.
-      destruct (run_handlers_sum e r (S i) err1 s1 (pre ++ [h0]) He1 Hpre1 Hlen1) as (l2 & t2 & Hd2 & _).
+      destruct (run_handlers_sum e r (S i) err1 s1 (pre ++ [h0]) He1 Hpre1 Hlen1 Hnp1 Hpr) as (l2 & t2 & Hd2 & _).
       destruct h0.
       * rewrite (f_log _ _ _ _ (d_fr _ _ _ _ _ Hd2)), (f_log _ _ _ _ (d_fr _ _ _ _ _ Hd1)).
         apply in_or_app. right. apply in_or_app. left. exact Hin1.
       * rewrite (d_tasks _ _ _ _ _ Hd2), (d_tasks _ _ _ _ _ Hd1).
         apply in_or_app. left. apply in_or_app. right. exact Hin1.
     + simpl in Hj. replace (i + S j) with (S i + j) by lia.
-      apply (IH (S i) err1 s1 (pre ++ [h0]) He1 Hpre1 Hlen1 j h Hj).
+      apply (IH (S i) err1 s1 (pre ++ [h0]) He1 Hpre1 Hlen1 Hnp1 Hpr j h Hj).
 Qed.
 
 (* the dispatcher pass of a user event invokes every plain handler and registers every generator
    handler of the event, whichever of them raise *)
 Theorem dispatch_runs_all : forall s e j h,
   e < next s -> kind s e = KUser -> nth_error (ev_hs (spec s e)) j = Some h ->
+  vpar s e = None -> plain_ev (spec s e) = true ->
   match h with
   | HP _ _ => In (LH e j) (log (dispatch e s))
   | HG _ _ _ => In {| tev := e; thd := j; tk := 0 |} (tasks (dispatch e s))
   end.
 Proof.
-  intros s e j h He Hk Hj. unfold dispatch. rewrite Hk.
+  intros s e j h He Hk Hj Hnp Hpl. unfold dispatch. rewrite Hk. rewrite plain_ev_hs in Hpl.
   set (s0 := set_phase e PActive s).
   assert (He0 : e < next s0) by (simpl; lia).
-  pose proof (run_handlers_all e (ev_hs (spec s0 e)) 0 false s0 [] He0 eq_refl eq_refl j h Hj) as Hall.
-  destruct (run_handlers_sum e (ev_hs (spec s0 e)) 0 false s0 [] He0 eq_refl eq_refl)
-    as (l1 & t1 & Hd1 & Herr1).
+  pose proof (run_handlers_all e (ev_hs (spec s0 e)) 0 false s0 [] He0 eq_refl eq_refl Hnp Hpl j h Hj) as Hall.
+  destruct (run_handlers_sum e (ev_hs (spec s0 e)) 0 false s0 [] He0 eq_refl eq_refl Hnp Hpl)
+    as (l1 & t1 & Hd1 & Herr1 & _).
   destruct (run_handlers e 0 (ev_hs (spec s0 e)) false s0) as [s1 err] eqn:Hrun. simpl fst in *. simpl snd in *.
   assert (He1 : e < next s1) by (pose proof (f_next _ _ _ _ (d_fr _ _ _ _ _ Hd1)); lia).
   set (xs := map (LDU e) (observers true (ev_both (spec s1 e)))).
@@ -1517,14 +1721,14 @@ Proof.
   - split; auto.
 Qed.
 
-Lemma task_raise_shape : forall p e s, e < next s ->
+Lemma task_raise_shape : forall p e s, e < next s -> vpar s e = None ->
   tasks (task_raise p e s) = remove_nth p (tasks s) /\
   (forall x, In x (log s) -> In x (log (task_raise p e s))).
 Proof.
-  intros p e s He. unfold task_raise.
+  intros p e s He Hnp. unfold task_raise.
   set (s1 := set_tasks (remove_nth p (tasks s)) s).
   assert (He1 : e < next s1) by exact He.
-  destruct (set_value_vop e PErr s1 He1 eq_refl) as (li1 & Hv2 & _ & _).
+  destruct (set_value_vop e PErr s1 He1 eq_refl Hnp eq_refl) as (li1 & Hv2 & _ & _).
   pose proof (mono_vop _ _ _ _ Hv2) as M2.
   set (s2 := set_value e PErr s1) in *.
   assert (He2 : e < next s2) by (destruct M2 as (_ & ? & _); lia).
@@ -1580,13 +1784,14 @@ Qed.
 Lemma step_task_shape : forall p t0 s ys lk gr,
   nth_error (tasks s) p = Some t0 -> tev t0 < next s ->
   nth_error (ev_hs (spec s (tev t0))) (thd t0) = Some (HG ys lk gr) ->
+  vpar s (tev t0) = None -> plain_hdl (HG ys lk gr) = true ->
   (forall t', In t' (tasks s) -> t' <> t0 -> In t' (tasks (step_task p s))) /\
   (forall x, In x (log s) -> In x (log (step_task p s))) /\
   In (LG (tev t0) (thd t0) (tk t0)) (log (step_task p s)) /\
   (nth_error ys (tk t0) <> None ->
    In {| tev := tev t0; thd := thd t0; tk := S (tk t0) |} (tasks (step_task p s))).
 Proof.
-  intros p t0 s ys lk gr Hn He Hh. unfold step_task. rewrite Hn, Hh.
+  intros p t0 s ys lk gr Hn He Hh Hnp Hpl. unfold step_task. rewrite Hn, Hh.
   set (e := tev t0) in *.
   destruct (nth_error ys (tk t0)) as [[kids y]|] eqn:Hy.
   - destruct (enter_vop e (LG e (thd t0) (tk t0)) kids s He eq_refl) as (lk' & Hv1 & _ & _ & Hn1).
@@ -1596,7 +1801,12 @@ Proof.
     { rewrite (f_log _ _ _ _ (v_fr _ _ _ _ Hv1)). apply in_or_app. left. apply in_or_app. right. left. auto. }
     assert (M2 : mono s2 (if is_none y then s2 else set_value e y s2)).
     { destruct (is_none y) eqn:Hnone; [apply mono_refl|].
-      destruct (set_value_vop e y s2 ltac:(lia) Hnone) as (li & Hv & _ & _). eapply mono_vop; eauto. }
+      assert (Hry : is_ref y = false).
+      { simpl in Hpl. apply andb_prop in Hpl. destruct Hpl as (H1 & _).
+        pose proof (forallb_nth _ _ _ _ _ H1 Hy) as H2. simpl in H2. apply andb_prop in H2.
+        destruct H2 as (_ & H2). now apply negb_true_iff in H2. }
+      assert (Hnp2 : vpar s2 e = None) by (unfold s2; now rewrite vpar_fire_all).
+      destruct (set_value_vop e y s2 ltac:(lia) Hnone Hnp2 Hry) as (li & Hv & _ & _). eapply mono_vop; eauto. }
     set (s3 := if is_none y then s2 else set_value e y s2) in *.
     pose proof (mono_trans _ _ _ M1 M2) as M. destruct M as (Ht & _ & l & Hl).
     simpl. rewrite Ht. split; [|split; [|split]].
@@ -1612,7 +1822,8 @@ Proof.
     assert (He2 : e < next s2) by lia.
     assert (Hsh : tasks (if gr then task_raise p e s2 else task_stop p e s2) = remove_nth p (tasks s2) /\
                   (forall x, In x (log s2) -> In x (log (if gr then task_raise p e s2 else task_stop p e s2)))).
-    { destruct gr; [apply task_raise_shape | apply task_stop_shape]; auto. }
+    { destruct gr; [apply task_raise_shape | apply task_stop_shape]; auto.
+      unfold s2. now rewrite vpar_fire_all. }
     destruct Hsh as (Ht & Hl). destruct M1 as (Ht1 & _ & l1 & Hl1).
     assert (Hgoal : forall s', tasks s' = remove_nth p (tasks s2) ->
               (forall x, In x (log s2) -> In x (log s')) ->
@@ -1627,15 +1838,15 @@ Proof.
     destruct gr; apply Hgoal; auto.
 Qed.
 
-Lemma dispatch_shape : forall e s, e < next s ->
+Lemma dispatch_shape : forall e s, e < next s -> vpar s e = None -> plain_ev (spec s e) = true ->
   (forall t, In t (tasks s) -> In t (tasks (dispatch e s))) /\
   (forall x, In x (log s) -> In x (log (dispatch e s))).
 Proof.
-  intros e s He. unfold dispatch. destruct (kind s e) as [|k x a o] eqn:Hk.
+  intros e s He Hnp Hpl. unfold dispatch. rewrite plain_ev_hs in Hpl. destruct (kind s e) as [|k x a o] eqn:Hk.
   - set (s0 := set_phase e PActive s).
     assert (He0 : e < next s0) by exact He.
-    destruct (run_handlers_sum e (ev_hs (spec s0 e)) 0 false s0 [] He0 eq_refl eq_refl)
-      as (l1 & t1 & Hd1 & Herr1).
+    destruct (run_handlers_sum e (ev_hs (spec s0 e)) 0 false s0 [] He0 eq_refl eq_refl Hnp Hpl)
+      as (l1 & t1 & Hd1 & Herr1 & _).
     destruct (run_handlers e 0 (ev_hs (spec s0 e)) false s0) as [s1 err] eqn:Hrun. simpl fst in *. simpl snd in *.
     assert (He1 : e < next s1) by (pose proof (f_next _ _ _ _ (d_fr _ _ _ _ _ Hd1)); lia).
     set (xs := map (LDU e) (observers true (ev_both (spec s1 e)))).
@@ -1697,9 +1908,9 @@ Proof.
   apply (x_new _ _ _ Hx d). simpl. lia.
 Qed.
 
-Lemma hinv_step : forall lb s, Inv s -> HInv s -> HInv (step lb s).
+Lemma hinv_step : forall lb s, OKs s -> Inv s -> HInv s -> HInv (step lb s).
 Proof.
-  intros lb s HI HH. pose proof HI as [q1 q2 q3 t w a lbd vc sc sl]. destruct lb as [|p]; simpl.
+  intros lb s (Hnp & Hsp0) HI HH. pose proof HI as [q1 q2 q3 t w a lbd vc sc sl]. destruct lb as [|p]; simpl.
   - destruct (queue s) as [|e q] eqn:Hq; auto.
     assert (He : e < next s /\ phase s e = PQueued) by (apply q1; simpl; auto).
     destruct He as (He & Hpe).
@@ -1708,17 +1919,17 @@ Proof.
     { assert (Hz : ctasks e (tasks s) = 0).
       { apply ctasks_zero. intros t0 Hin Heq. destruct (t t0 Hin) as (_ & Hp). congruence. }
       destruct (kind s e) eqn:Hk.
-      - apply dispatch_user_ssum; auto. simpl. auto.
+      - apply dispatch_user_ssum; auto; simpl; auto.
       - eapply dispatch_der_ssum; simpl; eauto. rewrite (w e He). exact Hz. }
     destruct Hss as (l0 & b & Hfr & _).
-    destruct (dispatch_shape e s0 He) as (Htk & Hlg).
+    destruct (dispatch_shape e s0 He (Hnp e) (Hsp0 e)) as (Htk & Hlg).
     intros d i h Hd Hk Hp Hnth.
     destruct (Nat.lt_ge_cases d (next s)) as [Hlt|Hge].
     2:{ exfalso. apply Hp. apply (f_new _ _ _ _ Hfr d). simpl. lia. }
     destruct (f_spec _ _ _ _ Hfr d Hlt) as (Hsp & Hkd). simpl in Hsp, Hkd.
     rewrite Hsp in Hnth. rewrite Hkd in Hk.
     destruct (Nat.eq_dec d e) as [->|Hne].
-    + pose proof (dispatch_runs_all s0 e i h He Hk Hnth) as Hall.
+    + pose proof (dispatch_runs_all s0 e i h He Hk Hnth (Hnp e) (Hsp0 e)) as Hall.
       destruct h as [|ys lk gr]; simpl; auto. left.
       eexists. split; [exact Hall|]. simpl. repeat split; auto; try lia; intros k Hk0; lia.
     + destruct (f_old _ _ _ _ Hfr d Hlt Hne) as (_ & _ & Hph). simpl in Hph.
@@ -1726,11 +1937,13 @@ Proof.
   - destruct (nth_error (tasks s) p) as [t0|] eqn:Hn.
     2:{ unfold step_task. now rewrite Hn. }
     destruct (t t0 (nth_error_In _ _ Hn)) as (He & Hp0).
-    destruct (step_task_ssum p t0 s Hn He Hp0 (w _ He)) as [-> | Hs]; auto.
+    destruct (step_task_ssum p t0 s Hn He Hp0 (w _ He) (Hnp _) (Hsp0 _)) as [-> | Hs]; auto.
     destruct Hs as (l0 & b & Hfr & _).
     destruct (nth_error (ev_hs (spec s (tev t0))) (thd t0)) as [[kids r | ys lk gr]|] eqn:Hh;
       try (unfold step_task; rewrite Hn, Hh; exact HH).
-    destruct (step_task_shape p t0 s ys lk gr Hn He Hh) as (B2 & Hlg & Hnew & Hnext).
+    assert (Hplh : plain_hdl (HG ys lk gr) = true).
+    { eapply forallb_nth; [|exact Hh]. rewrite <- plain_ev_hs. apply Hsp0. }
+    destruct (step_task_shape p t0 s ys lk gr Hn He Hh (Hnp _) Hplh) as (B2 & Hlg & Hnew & Hnext).
     set (s' := step_task p s) in *.
     intros d i h Hd Hk Hp Hnth.
     destruct (Nat.lt_ge_cases d (next s)) as [Hlt|Hge].
@@ -1762,23 +1975,135 @@ Proof.
       * apply (HH d i h); auto. congruence.
 Qed.
 
-Lemma both_exec : forall ls s, Inv s -> HInv s -> Inv (exec ls s) /\ HInv (exec ls s).
+Lemma both_exec : forall ls s, OKs s -> Inv s -> HInv s -> Inv (exec ls s) /\ HInv (exec ls s).
 Proof.
-  induction ls as [|lb ls IH]; intros s HI HH; simpl; auto.
-  apply IH; [apply inv_step | apply hinv_step]; auto.
+  induction ls as [|lb ls IH]; intros s H0 HI HH; simpl; auto.
+  apply IH; [apply oks_step | apply inv_step | apply hinv_step]; auto.
 Qed.
 
 (* when an event has passed the _eventDone gate, every one of its handlers has run to its end:
    every plain handler was invoked, every segment of every generator handler (up to and including the
    one that returns or raises) was entered — whichever handlers raised *)
 Theorem finished_complete : forall s e i h,
-  reachable s -> e < next s -> kind s e = KUser -> phase s e = PFin ->
+  reachable_plain s -> e < next s -> kind s e = KUser -> phase s e = PFin ->
   nth_error (ev_hs (spec s e)) i = Some h -> handler_finished (log s) e i h.
 Proof.
-  intros s e i h (roots & ls & ->) He Hk Hp Hnth.
-  destruct (both_exec ls (start roots) (inv_start roots) (hinv_start roots)) as (HI & HH).
+  intros s e i h (roots & ls & Hpl & ->) He Hk Hp Hnth.
+  destruct (both_exec ls (start roots) (oks_start roots Hpl) (inv_start roots) (hinv_start roots)) as (HI & HH).
   pose proof (HH e i h He Hk ltac:(congruence) Hnth) as Hd.
   destruct h as [|ys lk gr]; simpl in *; auto.
   destruct Hd as [(t & Hin & Ht & _)|Hall]; auto.
   exfalso. destruct (i_t _ _ HI t Hin) as (_ & Hpa). rewrite Ht in Hpa. congruence.
+Qed.
+
+(* ------------------------------------------------------------------ all programs, including nested-Value returns:
+   a raise in the dispatcher pass blocks <name>_success of that pass *)
+
+(* [lext s s']: the log only grows, by entries that are not <name>_success firings *)
+Definition lext (s s' : st) : Prop := exists l, log s' = l ++ log s /\ Forall nosucc l.
+
+Lemma lext_refl : forall s, lext s s.
+Proof. intros. exists []. split; auto. Qed.
+Lemma lext_trans : forall s s1 s2, lext s s1 -> lext s1 s2 -> lext s s2.
+Proof.
+  intros s s1 s2 (l1 & a1 & b1) (l2 & a2 & b2). exists (l2 ++ l1). split.
+  - rewrite a2, a1. now rewrite app_assoc.
+  - apply Forall_app; auto.
+Qed.
+Lemma lext_same : forall s s', log s' = log s -> lext s s'.
+Proof. intros s s' H. exists []. split; auto. Qed.
+Lemma lext_ext : forall l s s', ext l s s' -> Forall nosucc l -> lext s s'.
+Proof. intros l s s' H Hn. exists l. split; auto. apply (x_log _ _ _ H). Qed.
+
+Lemma lext_fire_all : forall kids s, lext s (fire_all kids s).
+Proof.
+  intros. destruct (ext_fire_all kids s) as (l & Hx & Hl). eapply lext_ext; eauto. eapply LF_nosucc; eauto.
+Qed.
+Lemma lext_inform : forall f e s, lext s (inform f e s).
+Proof.
+  intros. destruct (ext_inform f e s) as (l & Hx & Hl). eapply lext_ext; eauto.
+  destruct Hl as [-> | ->]; repeat constructor.
+Qed.
+Lemma lext_raise_feedback : forall e s, lext s (raise_feedback e s).
+Proof.
+  intros. eapply lext_ext; [apply ext_raise_feedback|]. apply (fb_facts e (ev_fail (spec s e))).
+Qed.
+
+Lemma lext_propagate : forall f o x s, lext s (propagate f o x s).
+Proof.
+  induction f as [|f IH]; intros o x s; unfold propagate; fold propagate; [apply lext_refl|].
+  destruct (vpar s o) as [p|]; [|apply lext_refl].
+  eapply lext_trans; [|apply IH].
+  destruct x; try (apply lext_same; reflexivity);
+    (eapply lext_trans; [|apply lext_inform]; apply lext_same; reflexivity).
+Qed.
+
+Lemma lext_set_value : forall e x s, lext s (set_value e x s).
+Proof.
+  intros e x s. unfold set_value.
+  assert (Hl : lext s (set_value_local e x s)).
+  { unfold set_value_local. destruct (is_none x); [apply lext_same; reflexivity|].
+    eapply lext_trans; [|apply lext_inform]. apply lext_same. reflexivity. }
+  destruct x; try (eapply lext_trans; [exact Hl | apply lext_propagate]).
+  eapply lext_trans; [|apply lext_propagate]. apply lext_same. reflexivity.
+Qed.
+
+Definition raising (h : hdl) : bool := match h with HP _ RRaise => true | _ => false end.
+
+Lemma lext_run_handler : forall e i h err s,
+  lext s (fst (run_handler e i h err s)) /\ snd (run_handler e i h err s) = err || raising h.
+Proof.
+  intros e i h err s. destruct h as [kids r | ys lk gr]; simpl.
+  - assert (H1 : lext s (fire_all kids (add_log (LH e i) s))).
+    { eapply lext_trans; [|apply lext_fire_all]. exists [LH e i]. split; auto. repeat constructor. }
+    destruct r as [v| |sp]; simpl.
+    + split; [|now rewrite orb_false_r]. destruct (is_none v); auto.
+      eapply lext_trans; [exact H1 | apply lext_set_value].
+    + split; [|now rewrite orb_true_r].
+      eapply lext_trans; [exact H1|]. eapply lext_trans; [|apply lext_set_value].
+      eapply lext_trans; [|apply lext_raise_feedback]. apply lext_same. reflexivity.
+    + split; [|now rewrite orb_false_r].
+      eapply lext_trans; [exact H1|]. eapply lext_trans; [|apply lext_set_value].
+      eapply lext_ext; [apply ext_fire_user | repeat constructor].
+  - split; [apply lext_same; reflexivity | now rewrite orb_false_r].
+Qed.
+
+Lemma lext_run_handlers : forall e hs i err s,
+  lext s (fst (run_handlers e i hs err s)) /\ snd (run_handlers e i hs err s) = err || existsb raising hs.
+Proof.
+  intros e hs. induction hs as [|h r IH]; intros i err s; simpl.
+  - split; [apply lext_refl | now rewrite orb_false_r].
+  - destruct (lext_run_handler e i h err s) as (H1 & H2).
+    destruct (run_handler e i h err s) as [s1 err1]. simpl in *. subst err1.
+    destruct (IH (S i) (err || raising h) s1) as (H3 & H4). split.
+    + eapply lext_trans; eauto.
+    + rewrite H4. now rewrite orb_assoc.
+Qed.
+
+Lemma lext_log_all : forall xs s, Forall nosucc xs -> lext s (log_all xs s).
+Proof.
+  induction xs as [|x r IH]; intros s H; simpl; [apply lext_refl|]. inversion H; subst.
+  eapply lext_trans; [|apply IH; auto]. exists [x]. split; auto.
+Qed.
+
+(* whatever else its handlers do (return Values of nested events, fire events, register generators):
+   if a plain handler of e raises, the dispatcher pass of e fires no <name>_success at all *)
+Theorem pass_failure_blocks_success : forall s e d,
+  kind s e = KUser -> existsb raising (ev_hs (spec s e)) = true ->
+  count_der DSucc d (log (dispatch e s)) = count_der DSucc d (log s).
+Proof.
+  intros s e d Hk Hr. unfold dispatch. rewrite Hk.
+  set (s0 := set_phase e PActive s).
+  destruct (lext_run_handlers e (ev_hs (spec s0 e)) 0 false s0) as (H1 & H2).
+  destruct (run_handlers e 0 (ev_hs (spec s0 e)) false s0) as [s1 err]. simpl in H1, H2.
+  change (spec s0 e) with (spec s e) in H2. rewrite Hr in H2. simpl in H2. subst err.
+  set (xs := map (LDU e) (observers true (ev_both (spec s1 e)))).
+  assert (Hxs : Forall nosucc xs).
+  { unfold xs, observers. destruct (ev_both (spec s1 e)); simpl; repeat constructor. }
+  pose proof (lext_log_all xs s1 Hxs) as H3.
+  assert (H4 : log (event_done e true (log_all xs s1)) = log (log_all xs s1)).
+  { unfold event_done. destruct (Nat.eqb (waiting (log_all xs s1) e) 0); reflexivity. }
+  rewrite H4.
+  destruct (lext_trans _ _ _ (lext_trans s s0 s1 (lext_same _ _ eq_refl) H1) H3) as (l & Hl & Hn).
+  rewrite Hl, count_der_app, (nosucc_count d l Hn). reflexivity.
 Qed.
